@@ -177,6 +177,7 @@ func runC09(c *Ctx) {
 	ruleStaleErr(c, "R-STALE-ERR", pkgs)
 	c09FileLock(c, pkStore)
 	c09EntryKey(c)
+	c15PutAllGiven(c)
 	{
 		op := append([]*packages.Package{}, pkgs...)
 		if q := p.Pkg("private/bufpkg/bufmodule"); q != nil {
